@@ -33,7 +33,7 @@ func init() {
 		Level: "exploration",
 		Rule: "seeded Swagger 2.0 descriptions (base path, global and per-operation consumes/produces over 9 lower-case media types plus the two form media types on the consumes side, 0-4 security definitions, global/per-operation/cleared security with 1-2 scheme alternatives and anonymous, 0-6 operations over 7 methods; wide descriptions: see below) loaded with loads.Analyzed; " +
 			"per description and JSON-defaults mode the registration sets: exact, every single omission, single additions per category (fresh media type, wildcard media type, media type with a parameter, fresh/other-method/path-case/trailing-slash operation (also substituted for the declared one), fresh/case-variant scheme, authenticator for a declared-but-unused definition), case variants of media types and methods, duplicates, random multi-category deltas, Register* calls made on the same API value AFTER a judged Validate (one superfluous item after a success, the one missing item after a failure, an existing key registered again) followed by another judged Validate, caller-assigned DefaultConsumes/DefaultProduces (a named media type); the root template '/' is declared now and then; " +
-			"oracle = per-category set comparison computed from the generated description; Validate is called twice in a row on every API (same outcome required); every registration set that validates (exact, case variants, duplicates, application/json left to the JSON defaults, ...) is served, after the second Validate, through Context.APIHandler with >= 3 well-formed requests per operation (each consumes/produces type, charset parameter, upper-case media type, Accept forms incl. 'application/json, <declared>;q=0.9' and 'application/json, */*;q=0.8' on operations that produce no JSON, scripted 'does not apply' authenticators) using tagged stub consumers/producers/authenticators; one description in 20 is also validated with one media type in mixed case or with a parameter (outcome classed 'probe:nonlower-description/...', not judged). " +
+			"oracle = per-category set comparison computed from the generated description; Validate is called twice in a row on every API (same outcome required); every registration set that validates (exact, case variants, duplicates, application/json left to the JSON defaults, ...) is served, after the second Validate, through Context.APIHandler with >= 3 well-formed requests per operation (each consumes/produces type, charset parameter, upper-case media type, Accept forms incl. 'application/json, <declared>;q=0.9' and 'application/json, */*;q=0.8' on operations that produce no JSON, scripted 'does not apply' authenticators) using tagged stub consumers/producers/authenticators; one description in 20 is also validated with one media type in mixed case (registered as spelt: must validate) or with a parameter (outcome classed 'probe:nonlower-description/...', not judged). " +
 			"Consumes lists name multipart/form-data and application/x-www-form-urlencoded now and then (next to other types or alone; an operation whose own consumes list names form types only declares a formData parameter two times in three, and is sent real forms); DELETE and OPTIONS operations declare and are sent bodies too; the anonymous security alternative comes first or last, and an operation that has one also gets a request on which every scheme 'does not apply'; one registration set per description also registers an allow-all authorizer. " +
 			"One description in 50 is WIDE: 24-100 names in one category (operations /bulk/rNN, consumed or produced media types application/vnd.c19.tNN+json, security schemes sNN each used by an operation), with the same registration sets (every single omission included); its first 3 validated APIs are served, 8 sampled operations each. " +
 			"Every request is sent through one of two pipelines built from the SAME validated untyped.API value: the untyped one (Context.APIHandler of NewContext, or middleware.Serve), or - one request in three - the one of a generated server (gen.GeneratedAPI: a RoutableAPI on a Context made by NewRoutableContext whose operation handlers run RouteInfo, Authorize, BindValidRequest with a RequestBinder that parses forms with net/http and decodes bodies with route.Consumer, the handler, Respond); on every second request the handler returns a middleware.Responder that writes the declared status and calls the producer it is handed (judged like a plain value: status, announced media type, the stub producer that wrote; plus: BindValidRequest must have selected a consumer for a body the binder decodes, the Responder must be handed a producer). " +
@@ -2146,9 +2146,10 @@ func variants(r *rand.Rand, d *Desc, nmulti int) []Reg {
 }
 
 // probeNonLower: a description that names a media type in mixed case or with a parameter (outside the
-// serving clause; whether "coincide" is meant up to letter case there awaits a triage decision).
-// Validate only, for the registration set that registers every named type as it is spelt; the
-// outcome is CLASSED, not judged.
+// serving clause). Validate only, for the registration set that registers every named type as it is spelt.
+// Mixed case: judged - such registrations coincide with the requirements, Validate must succeed (it did not
+// until the library compared the required types in the lower case it registers them under). With a
+// parameter: the outcome is CLASSED, not judged.
 func probeNonLower(m *mon.M, r *rand.Rand, d0 *Desc) {
 	raw0, _ := json.Marshal(d0)
 	var d Desc
@@ -2182,6 +2183,16 @@ func probeNonLower(m *mon.M, r *rand.Rand, d0 *Desc) {
 		how = "parameter"
 		(*l)[i] += "; charset=utf-8"
 	}
+	g := exactReg(&d, false)
+	g.Kind = "probe-nonlower-description"
+	g.NoJSONDefaults = !required(&d, false)[catConsumes]["application/json"] || !required(&d, false)[catProduces]["application/json"]
+	judgeNonLower(m, &d, g, how)
+}
+
+// judgeNonLower validates one registration set (every named type registered as it is spelt) against a description that
+// names a type in mixed case or with a parameter; also the replay entry of such a case.
+func judgeNonLower(m *mon.M, dp *Desc, g Reg, how string) {
+	d := *dp
 	raw := render(&d)
 	var doc *loads.Document
 	var lerr error
@@ -2189,9 +2200,6 @@ func probeNonLower(m *mon.M, r *rand.Rand, d0 *Desc) {
 		m.Class("probe:nonlower-description/" + how + "/not-loadable")
 		return
 	}
-	g := exactReg(&d, false)
-	g.Kind = "probe-nonlower-description"
-	g.NoJSONDefaults = !required(&d, false)[catConsumes]["application/json"] || !required(&d, false)[catProduces]["application/json"]
 	m.Eval(1)
 	var err error
 	pv, st := mon.Catch(func() { err = buildAPI(doc, &g, &recorder{}).Validate() })
@@ -2200,6 +2208,15 @@ func probeNonLower(m *mon.M, r *rand.Rand, d0 *Desc) {
 		return
 	}
 	obs := observe(err)
+	if how == "mixed-case" && !obs.ok && obs.other == "" && (obs.cat == catConsumes || obs.cat == catProduces) {
+		// Ruling (round 3): the registrations coincide with what the description requires - every named type is registered
+		// exactly as the description spells it - so validation must not fail on the media types (a failure in another
+		// category, e.g. an unused security definition of the description, has nothing to do with letter case); that the registry folds letter case is its
+		// own business. (The parameter variant stays a probe: what a type "with a parameter" requires is not stated.)
+		m.NT("probe-nonlower|" + string(raw))
+		m.Violate("rejects-coinciding-registrations/description-names-a-type-in-mixed-case", fmt.Sprintf("every media type is registered as the description spells it, Validate says: %v", err), &Case{Desc: d, Reg: g})
+		return
+	}
 	switch {
 	case obs.ok:
 		m.Class("probe:nonlower-description/" + how + "/validates-with-types-registered-as-spelt")
@@ -2215,6 +2232,21 @@ func probeNonLower(m *mon.M, r *rand.Rand, d0 *Desc) {
 		}
 		m.Class("probe:nonlower-description/" + how + "/fails-" + catNames[obs.cat] + side)
 	}
+}
+
+func namesMixedCaseType(d *Desc) bool {
+	lists := [][]string{d.Consumes, d.Produces}
+	for i := range d.Ops {
+		lists = append(lists, d.Ops[i].Consumes, d.Ops[i].Produces)
+	}
+	for _, l := range lists {
+		for _, t := range l {
+			if strings.ToLower(t) != t {
+				return true
+			}
+		}
+	}
+	return false
 }
 
 func run(m *mon.M) {
@@ -2243,6 +2275,14 @@ func replay(m *mon.M, raw json.RawMessage) {
 		return
 	}
 	resetReadings()
+	if c.Reg.Kind == "probe-nonlower-description" {
+		how := "parameter"
+		if namesMixedCaseType(&c.Desc) {
+			how = "mixed-case"
+		}
+		judgeNonLower(m, &c.Desc, c.Reg, how)
+		return
+	}
 	if c.Other != nil {
 		runDesc(m, rand.New(rand.NewSource(1)), &c.Other.Desc, []Reg{c.Other.Reg}, false, nil)
 	}
